@@ -73,6 +73,44 @@ def step_cli(pid, tier, seed):
     return "c17", H.run_engine([H.tool("vgraph"), "c17", "--prop", pid, "--tier", tier, "--seed", str(seed), "--file", cli, "--out", out], out)
 
 
+def probe_good(pdir):
+    """Build the crate of valid definitions with the real derive (must compile), then run every
+    curated lexer obtained from the REAL proc-macro against the reference lexer (binding of the
+    library expansion used by Layer 2 to the derive)."""
+    rep = {"engine": "vprobe good (rustc + real derive)", "counts": {}, "observed": {}, "violations": [], "samples": [], "notes": [], "bounds": {}, "exhaustive": True}
+    g = H.sh(["cargo", "build", "--offline", "--message-format=json", "--target-dir", "target"], cwd=os.path.join(pdir, "good"), timeout=3600, check=False)
+    gerrs = []
+    for line in (g.stdout or "").splitlines():
+        if line.startswith("{"):
+            try:
+                m = json.loads(line)
+            except ValueError:
+                continue
+            if m.get("reason") == "compiler-message" and m["message"].get("level") == "error":
+                gerrs.append(m["message"]["message"][:200])
+    ngood = len(json.load(open(os.path.join(pdir, "good", "cases.json"))))
+    rep["counts"]["good_definitions_compiled"] = ngood
+    if g.returncode != 0 or gerrs:
+        rep["violations"].append({"key": "GOOD-FAILS", "tag": "GOOD-FAILS", "case": "valid definitions through the real derive", "detail": "the crate of valid definitions does not compile: " + " | ".join(gerrs[:5]),
+                                  "replay": {"kind": "probe", "tag": "GOOD-FAILS"}})
+        return rep
+    b = H.sh([os.path.join(pdir, "good", "target", "debug", "bind"), os.path.join(pdir, "good", "cases.json")], timeout=3600, check=False)
+    if b.returncode != 0:
+        raise H.MachineryError("vprobe bind failed: " + (b.stdout or "")[-500:])
+    br = json.loads([l for l in (b.stdout or "").splitlines() if l.startswith("{")][-1])
+    rep["counts"]["derive_binding_runs"] = br["counts"].get("evaluations", 0)
+    rep["counts"]["traces_validated_against_impl"] = br["counts"].get("traces_validated_against_impl", 0)
+    rep["violations"].extend(br["violations"])
+    return rep
+
+
+def step_bind(pid, tier, seed):
+    H.build_tools()
+    pdir = os.path.join(H.ENGINE, "vprobe")
+    H.sh([H.tool("vgraph"), "probe-emit", "--tier", tier, "--out", pdir], timeout=1800)
+    return "derive-binding", probe_good(pdir)
+
+
 def step_probe(pid, tier, seed):
     """C19 through rustc: every single item / same-key pair of the attribute grammar as a real
     #[derive(Logos)] input on the stable toolchain; a proc-macro panic is a violation, a must-reject
@@ -121,21 +159,9 @@ def step_probe(pid, tier, seed):
                                           "detail": f"must be rejected ({c['must_reject']}) but rustc reports no error for this enum", "replay": {"kind": "probe", "tag": "MUSTREJECT-COMPILES", "src": c["src"]}})
     rep["counts"].update({"evaluations": len(cases), "distinct_nontrivial": len(cases), "must_reject_cases_rustc": nmust, "rustc_diagnostics": ndiag, "programs": len(cases)})
     rep["samples"].append({"derive_input": cases[len(cases) // 3]["src"], "desc": cases[len(cases) // 3]["desc"]})
-    g = H.sh(["cargo", "build", "--offline", "--message-format=json", "--target-dir", "target"], cwd=os.path.join(pdir, "good"), timeout=3600, check=False)
-    gerrs = []
-    for line in (g.stdout or "").splitlines():
-        if line.startswith("{"):
-            try:
-                m = json.loads(line)
-            except ValueError:
-                continue
-            if m.get("reason") == "compiler-message" and m["message"].get("level") == "error":
-                gerrs.append(m["message"]["message"][:200])
-    ngood = len(json.load(open(os.path.join(pdir, "good", "cases.json"))))
-    rep["counts"]["good_definitions_compiled"] = ngood
-    if g.returncode != 0 or gerrs:
-        rep["violations"].append({"key": "GOOD-FAILS", "tag": "GOOD-FAILS", "case": "valid definitions through the real derive", "detail": "the crate of valid definitions does not compile: " + " | ".join(gerrs[:5]),
-                                  "replay": {"kind": "probe", "tag": "GOOD-FAILS"}})
+    good = probe_good(pdir)
+    rep["counts"].update(good["counts"])
+    rep["violations"].extend(good["violations"])
     rep["bounds"]["rule"] = "real proc-macro path: all single items and all same-key pairs of the attribute grammar compiled by rustc (stable) through #[derive(Logos)]; the curated corpus + callback/extras/error definitions must compile"
     return "vprobe", rep
 
@@ -199,7 +225,7 @@ prop("C01", level="model_checking",
      technique="explicit-state product exploration (captured logos Graph x independent reference automaton), all inputs of every length per definition, over an enumerated definition family",
      text="Exhaustive BFS of the synchronous product of the real pipeline's final Graph with an independently built reference automaton decides longest-match/priority outcome equality for every input of every length, for every definition of a systematically enumerated family; tags OUTCOME, EARLY-STOP.",
      note="Trusted: regex-syntax parser/translator, rustc, harness code. Bounds: definition family F(k)+curated; inputs unbounded at the graph level.",
-     design_ref="5 C01, 3", steps=[step_selfcheck, step_layer1, step_layer2(["u-dev"], ["u-dev", "u-rel", "f-dev", "f-rel"])], assumptions=L1_ASSUME)
+     design_ref="5 C01, 3", steps=[step_selfcheck, step_layer1, step_layer2(["u-dev"], ["u-dev", "u-rel", "f-dev", "f-rel"]), step_bind], assumptions=L1_ASSUME)
 prop("C02", level="model_checking",
      technique="explicit-state product exploration (Graph x reference automaton): error fatal offset, stop-consuming point",
      text="The same product exploration decides, for every input of every length, that a match attempt stops exactly at the first symbol after which no pattern can match any extension (tags ERRSPAN, EARLY-STOP, OVERREAD).",
@@ -392,18 +418,30 @@ def replay_once(path):
     out = os.path.join(H.OUT, "replay.json")
     if kind in ("layer1", "tokens", "c16", "c18", "c19"):
         rep = H.run_engine([H.tool("vgraph"), "replay", "--prop", rec["property"], "--file", path, "--out", out], out)
-    elif kind == "c17":
-        cli = H.ensure_cli()
-        rep0 = H.run_engine([H.tool("vgraph"), "c17", "--prop", rec["property"], "--file", cli, "--out", out], out)
-        rep = {"violations": [v for v in rep0["violations"] if v["key"] == rec.get("key")]}
     elif kind in ("layer2", "readprobe"):
         tier = "quick"
         rep = H.run_vrt("t-dev" if rec["property"] == "C20" else "u-dev", tier, 0, "replay", rec["property"], out, extra=["--file", path])
+        if any("not in the compiled corpus" in n for n in rep.get("notes", [])):
+            rep = rerun_and_filter(rec)
     elif kind == "vderive":
         rep = H.run_vderive("tc-u-dev", "replay", rec["property"], "quick", out, extra=["--file", path])
     else:
-        return None
-    return [(v["tag"], v["detail"]) for v in rep["violations"]]
+        rep = rerun_and_filter(rec)
+    return [(v["tag"], v["detail"] if kind in ("layer1", "layer2") else "") for v in rep["violations"]]
+
+
+def rerun_and_filter(rec):
+    """Universal replayer: re-run the property's quick check steps and keep the violation with the same key."""
+    pid = rec["property"]
+    vs = []
+    for st in PROPS[pid]["steps"]:
+        try:
+            r = st(pid, "quick", 0)
+        except H.MachineryError:
+            continue
+        for _, rep in (r if isinstance(r, list) else [r]):
+            vs.extend(v for v in rep.get("violations", []) if v.get("key") == rec.get("key"))
+    return {"violations": vs[:1]}
 
 
 def confirm_replay(path):
